@@ -1033,6 +1033,9 @@ def run(ctx: Ctx, replay=None) -> int:
         ctx.search_budget_s = ctx.n(8, 90) * scale * 2
         oracle_bind(ctx, ctx.n(8, 90) * scale, ctx.n(150, 3000))
         oracle_transpile(ctx, ctx.n(8, 90) * scale, ctx.n(120, 2500))
+    # the replay file keeps the first few witnesses: put the ones that are not the known F6 shape first
+    ctx.witnesses.sort(key=lambda w: w["key"] == KEY_F6)
+    ctx.extra["witness_keys"] = sorted({w["key"] for w in ctx.witnesses})
     return ctx.finish()
 
 
